@@ -35,6 +35,16 @@ def bounded_time_shift(pb, interp, rng, tier):
                     fails.append(_fail("time_shift", "integer-shift-moves-samples", f"N={N},{np.dtype(dt).name},shift={s}", f"relative error {err:.2e}"))
                 if y.data.dtype != x.dtype:
                     fails.append(_fail("time_shift", "dtype-kept", f"N={N},{np.dtype(dt).name}", str(y.data.dtype)))
+    # whole-sample shifts given as durations whose product with the rate is exact: exactly that many edge samples
+    for rate, dur, nshift in ((3 * u.GHz, 5 * u.ns, 15), (10 * u.GHz, -3 * u.ns, -30), (7 * u.GHz, 9 * u.ns, 63), (2.5 * u.GHz, 6 * u.ns, 15), (5 * u.kHz, 3 * u.ms, 15), (7 * u.kHz, 1 * u.ms, 7)):
+        ev += 1
+        N = 128
+        x = np.random.default_rng(5).standard_normal(N) + 1.0
+        z = pb.Signal(x, sample_rate=rate)
+        y = np.asarray(pb.time_shift(z, dur).data)
+        zeros = int(np.sum(y == 0))
+        if zeros != abs(nshift):
+            fails.append(_fail("time_shift", "duration-shift.edge-samples", f"sample_rate={rate}, shift={dur}", f"{zeros} samples zeroed, {abs(nshift)} expected"))
     return {"evaluations": ev, "distinct_nontrivial": ev, "failures": fails[:10], "samples": [{"N": sizes[0], "shift": "N//3 samples, 6 ms / 6000 us / 0.006 s at 1 kHz"}]}
 
 
